@@ -53,7 +53,7 @@ def lit(s):
 
 def gen_writer_program(rng, x, kind="mixed", types=None, nsig=None, twr=False, maxlen=6000, gaps=False, overlaps=False,
                        omit=False, annos=True, utc=True, userdata=True, late_defs=True, default_geometry_p=0.1,
-                       big_strings=False, gens=None, allow_odd_u4=False):
+                       big_strings=False, gens=None, allow_odd_u4=False, omit_p=0.06):
     """One writer session + close + lift of the write log.  Returns (program, model) where model
     holds what the generator knows about each signal (for composing reader ops)."""
     types = types or ALL_TYPES
@@ -166,6 +166,9 @@ def gen_writer_program(rng, x, kind="mixed", types=None, nsig=None, twr=False, m
                         "data": ["rep", rng.choice([0, 1, 7, 8, 9, 100, 1000]), rng.randint(1, 10 ** 6)] if stype == 1 else lit("ud%d" % steps)})
             nud += 1
         elif omit:
+            ops.append({"op": "omit", "sig": g, "en": rng.choice([0, 1, 1])})
+            feat.add("omit")
+        if omit and rng.random() < omit_p:
             ops.append({"op": "omit", "sig": g, "en": rng.choice([0, 1, 1])})
             feat.add("omit")
         if steps > 400:
